@@ -28,6 +28,9 @@ type Case struct {
 	// switches of Cfg. Pre is the same program with another tail: nothing of its compilation may survive into the judged one.
 	Pre      string `json:"pre,omitempty"`
 	PreFlags *int   `json:"preFlags,omitempty"`
+	// Custom: both VMs have a custom dice syntax R<expression> registered (a stream parser that reads its operand with
+	// ReadExpr and leaves the process text to the library's default): the property holds under every configuration
+	Custom bool `json:"custom,omitempty"`
 }
 
 type stEvent struct {
@@ -36,6 +39,19 @@ type stEvent struct {
 
 func newVM(c Case, log *[]stEvent) *ds.Context {
 	vm := c.Cfg.NewVM()
+	if c.Custom {
+		_ = vm.RegCustomDiceParser(func(ctx *ds.Context, st *ds.CustomDiceStream) (*ds.CustomDiceParseResult, error) {
+			if r, ok := st.Read(); !ok || r != 'R' {
+				return &ds.CustomDiceParseResult{Matched: false}, nil
+			}
+			if _, ok, err := st.ReadExpr(""); err != nil || !ok {
+				return &ds.CustomDiceParseResult{Matched: false}, nil
+			}
+			return &ds.CustomDiceParseResult{Matched: true}, nil
+		}, func(ctx *ds.Context, groups []string, payload any) (*ds.VMValue, string, error) {
+			return ds.NewIntVal(ds.IntType(len(groups))), "", nil
+		})
+	}
 	vm.Config.CallbackSt = func(_type string, name string, val *ds.VMValue, extra *ds.VMValue, op string, detail string) {
 		ev := stEvent{Type: _type, Name: name, Val: vmx.Repr(val), Op: op, Detail: detail}
 		if extra != nil {
@@ -282,6 +298,11 @@ func TestProp(t *testing.T) {
 			lead = ""
 		}
 		prog = lead + prog
+		if !strings.HasPrefix(strings.TrimSpace(prog), "^st") && rapid.IntRange(0, 7).Draw(t, "custom") == 0 {
+			c.Custom = true
+			prog += rapid.SampledFrom([]string{"; ", "\n"}).Draw(t, "customSep") + rapid.SampledFrom([]string{"R(2)", "R(1+2)", "R[1,2][0]", "1 + R(3)", "R(2) * 2", "[R(1), R(2)]", "R'a'"}).Draw(t, "customUse")
+			s.Class("with-custom-dice-operand")
+		}
 		c.Prog, c.Tail = prog, tail
 		c.Src = prog + tail
 		if rapid.IntRange(0, 5).Draw(t, "withPre") == 0 {
